@@ -101,6 +101,8 @@ fn handle(ws: &[&str]) -> String {
         #[cfg(feature = "full")]
         ["eseq", exp, dir, api, key, msgs] => enc::eseq(exp, dir, api, key, msgs),
         #[cfg(feature = "full")]
+        ["ebig", "wrath", key, n] => enc::ebig(key, n.parse().unwrap_or(0)),
+        #[cfg(feature = "full")]
         ["eseqf", exp, dir, key, frames] => enc::eseqf(exp, dir, key, frames),
         #[cfg(feature = "full")]
         ["cipherlaw", exp, key, data] => enc::cipherlaw(exp, key, data),
